@@ -7,6 +7,7 @@ mod util;
 mod c01;
 mod c02;
 mod c03;
+mod c03r;
 mod c04;
 mod c05;
 mod c06;
@@ -119,6 +120,7 @@ fn main() {
         "c01" => c01::run(&ctx),
         "c02" => c02::run(&ctx),
         "c03" => c03::run(&ctx),
+        "c03r" => c03r::run(&ctx),
         "c04" => c04::run(&ctx),
         "c05" => c05::run(&ctx),
         "c06" => c06::run(&ctx),
